@@ -308,6 +308,7 @@ package bkl
 // ------------------------------------------------------------------------------------------------- parser.go (output side)
 
 //@ func Parser.outputDocument(p, doc) (res, err)
+//@   propagates all   [C08] [C20] [C07] [C03]
 //@   property C19
 //@   modifies nothing
 //@   uses appNil, snocApp, appAssoc
@@ -396,6 +397,7 @@ package bkl
 //@     invariant (=> (and (canon dst@pre) (canon src)) (canon dst))
 
 //@ func Document.Process(d, mergeFromDocs) (docs, err)
+//@   propagates all   [C08] [C20] [C07] [C03]
 //@   uses rappLen
 
 // ------------------------------------------------------------------------------------------------- process1.go (termination: depth guard)
@@ -599,6 +601,7 @@ package bkl
 //@               (=> ((_ is VList) m) (listPathOK (heap Document.Data) (Document.Data mergeFrom) mergeFromDocs (ls m) x false)))))
 
 //@ func mergeDocs(doc, patch) (err)
+//@   propagates all   [C08] [C20] [C07] [C03]
 //@   property C02
 //@   modifies Document.Data[doc], Document.Parents[patch]
 //@   requires (not (= doc patch))
@@ -610,6 +613,7 @@ package bkl
 //@              (store (old (heap Document.Parents)) patch (rapp (old (Document.Parents patch)) (RCons doc RNil)))))
 
 //@ func Parser.MergeDocument(p, patch) (err)
+//@   propagates all   [C08] [C20] [C07] [C03]
 //@   property C02
 //@   modifies Parser.docs, Document.Data, Document.Parents, Document.ID
 //@   uses rmemApp, rdistinctApp, rappNil, rsnocApp, anyRejectedApp, wfDocsSnoc, wfDocsMono
@@ -631,6 +635,7 @@ package bkl
 //@     invariant (appliedTo (old (heap Document.Data)) (heap Document.Data) done (old (Document.Data patch)))
 //@     invariant (not (anyRejected (old (heap Document.Data)) done (old (Document.Data patch))))
 //@ func Parser.mergePatchMatch(p, patch) (matched, err)
+//@   propagates all   [C08] [C20] [C07] [C03]
 //@   property C02
 //@   modifies Parser.docs, Document.Data, Document.Parents, Document.ID
 //@   uses rmemApp, rdistinctApp, rappNil, rsnocApp, anyRejectedApp, wfDocsSnoc, wfDocsMono
@@ -665,6 +670,7 @@ package bkl
 //@     invariant (not (anyRejected (store (old (heap Document.Data)) patch (VMap (store (mc (old (Document.Data patch))) "$match" VAbsent))) done
 //@                          (VMap (store (mc (old (Document.Data patch))) "$match" VAbsent))))
 //@ func Parser.mergeFile(p, f) (err)
+//@   propagates all   [C08] [C20] [C07] [C03]
 //@   property C02
 //@   modifies Parser.docs, Document.Data, Document.Parents, Document.ID
 //@   uses rmemApp, rdistinctApp, rdistinctTail
@@ -677,6 +683,7 @@ package bkl
 //@     invariant (forall ((r Int)) (=> (rmem r rest) (not (rmem r (Parser.docs p)))))
 //@     invariant (>= allocTop (old allocTop))
 //@ func Parser.MergeFile(p, path) (err)
+//@   propagates all   [C08] [C20] [C07] [C03]
 //@   property C02
 //@   property C03
 //@   uses rmemApp, wfDocsMono
@@ -689,26 +696,33 @@ package bkl
 //@     invariant (and (= (heap Parser.docs) (old (heap Parser.docs))) true)
 //@   modifies Parser.docs, Document.Data, Document.Parents
 //@ func Parser.MergeFileLayers(p, path) (err)
+//@   propagates all   [C08] [C20] [C07] [C03]
 //@   property C02
 //@   modifies Parser.docs, Document.Data, Document.Parents
 
 //@ func Parser.Output(p, format) (out, err)
+//@   propagates all   [C08] [C20] [C07] [C03]
 //@   property C19
 //@   property C05
 //@   ensures (=> (= (fmtByName format) 0) (isErr err))                                                      [C05]
 //@   modifies nothing
 //@ func Parser.OutputDocuments(p) (res, err)
+//@   propagates all   [C08] [C20] [C07] [C03]
 //@   property C19
 //@   modifies nothing
 //@ func Parser.OutputToWriter(p, fh, format) (err)
 //@   property C19
 //@   property C05
+//@   property C20 shallow
+//@   propagates all   [C20] [C05] [C08]
 //@   at call Parser.Output#1
 //@     assert (= format (ite (= format@pre "") "json-pretty" format@pre))                                  [C05]
 //@   modifies nothing
 //@ func Parser.OutputToFile(p, path, format) (err)
 //@   property C19
 //@   property C05
+//@   property C20 shallow
+//@   propagates all   [C20] [C05] [C08]
 //@   at call Parser.OutputToWriter#1
 //@     assert (=> (not (= format@pre "")) (= format format@pre))                                           [C05]
 //@   modifies nothing
@@ -741,6 +755,7 @@ package bkl
 //@                                        (mapRef (heap Document.Data) (Document.Data mergeFrom) mergeFromDocs (mapOf (EvalContext.Vars ec)) (sitems matches) depth)))
 
 //@ func Parser.loadFile(p, path, child) (res, err)
+//@   propagates all   [C08] [C20] [C07] [C03]
 //@   property C18
 //@   uses freshDocsSnoc
 //@   ensures (=> (not (isErr err)) (freshDocs (file.docs res) allocTop allocTop@post))                                                  [C02]
@@ -771,6 +786,7 @@ package bkl
 //@   ensures (= (heap Document.Data) (old (heap Document.Data)))
 //
 //@ func Parser.loadFileAndParents(p, path, child) (res, err)
+//@   propagates all   [C08] [C20] [C07] [C03]
 //@   property C03
 //@   uses rlastSnoc
 //@   requires (=> (not (= child 0)) (>= (file.depth child) 0))
@@ -1050,6 +1066,7 @@ package bkl
 //@   ensures (= (extOK path) (not (= (fmtByName res) 0)))
 //
 //@ func FileMatch(path) (real, format, err)
+//@   propagates all   [C08] [C20] [C07] [C03]
 //@   property C20, C05
 //@   ensures (=> (not (extOK path)) (= err ErrInvalidType))                                                              [C20] [C05]
 //@   ensures (=> (and (extOK path) (= (pathBase (trimSuffix path (str.++ "." (extOf path)))) "-"))                       [C20] [C05]
@@ -1082,10 +1099,11 @@ package bkl
 //@     invariant (= (sapp (sitems ret) (globSel rest patDots)) (globSel (sitems matches) patDots))
 //
 //@ func file.toAbsolutePaths(f, paths) (res, err)
+//@   propagates all   [C08] [C20] [C07] [C03]
 //@   property C03
 //@   uses sappNil, sappAssoc
-//@   ensures (= (isErr err) (absBad (pathDir (file.path f)) (sitems paths)))                                                                [C03]
-//@   ensures (=> (not (isErr err)) (= res (Slice (absList (pathDir (file.path f)) (sitems paths)))))                                        [C03]
+//@   ensures (= (isErr err) (absBad (pathDir (file.path f)) (sitems paths)))                                                                [C03] [C18]
+//@   ensures (=> (not (isErr err)) (= res (Slice (absList (pathDir (file.path f)) (sitems paths)))))                                        [C03] [C18]
 //@   loop 1
 //@     invariant ((_ is Slice) ret)
 //@     invariant (= (absBad (pathDir (file.path f)) rest) (absBad (pathDir (file.path f)) (sitems paths)))
@@ -1122,6 +1140,7 @@ package bkl
 //@     invariant (= (sapp (sitems parents) (dirStrs (old (heap Document.Data)) rest)) (dirStrs (old (heap Document.Data)) (file.docs f)))
 //
 //@ func file.parents(f) (res, err)
+//@   propagates all   [C08] [C20] [C07] [C03]
 //@   property C03
 //@   requires (rdistinct (file.docs f))
 //@   requires (forall ((r Int)) (=> (rmem r (file.docs f)) (not (= r 0))))
